@@ -8,6 +8,8 @@
  *   ent k=v ...                             -> h=<st> w=<n>:<st> f=<st> len=<archive bytes so far, bpb=0 only>
  *   close | abort                           -> c=<st> len= hash= [hex=] fmt=<detected code> n=<entries read> end=<st>
  *   rd <i>                                  -> the i-th entry read back
+ *   rewrite f=<format> [bpb= bilb=]         -> o=<st> h=<st,..> c=<st> len= hash= fmt= n= end=   (write the read-back entries again)
+ *   rd2 <i>                                 -> the i-th entry read back from the rewritten archive
  *   done                                    -> done   (the oracle engines answer here)
  */
 #include "common.h"
@@ -223,6 +225,9 @@ static void op_ent(char **w, int n)
 /* ---- read side --------------------------------------------------------- */
 #define MAXENT 64
 static char *rb[MAXENT]; static int nrb;
+/* what the first read returned, kept for `rewrite`: entry objects and bodies */
+static struct archive_entry *rbe[MAXENT]; static unsigned char *rbbody[MAXENT]; static size_t rbblen[MAXENT]; static int nrbe;
+static char *rb2[MAXENT]; static int nrb2;
 
 static void hexs(char **o, const char *k, const char *s)
 {
@@ -231,11 +236,11 @@ static void hexs(char **o, const char *k, const char *s)
 	for (; *s; s++) *o += sprintf(*o, "%02x", (unsigned char)*s);
 }
 
-static void read_back(int partial, int *fmt, int *end)
+static void read_back(int partial, int *fmt, int *end, int keep, char **out, int *nout)
 {
 	struct archive *r = archive_read_new();
 	archive_read_support_filter_all(r); archive_read_support_format_all(r);
-	nrb = 0; *fmt = 0;
+	*nout = 0; *fmt = 0;
 	int st = archive_read_open_memory(r, sink, sink_len);
 	if (st < ARCHIVE_WARN) { *end = st; archive_read_free(r); return; }
 	for (;;) {
@@ -243,7 +248,7 @@ static void read_back(int partial, int *fmt, int *end)
 		st = archive_read_next_header(r, &e);
 		if (*fmt == 0 || st >= ARCHIVE_WARN) *fmt = archive_format(r);
 		if (st < ARCHIVE_WARN || st == ARCHIVE_EOF || st == ARCHIVE_RETRY) break;
-		if (nrb >= MAXENT) { st = -99; break; }
+		if (*nout >= MAXENT) { st = -99; break; }
 		const char *p = archive_entry_pathname(e);
 		size_t cap = 2 * ((p ? strlen(p) : 0) + 4096 * 3) + 1024;
 		char *line = malloc(cap), *o = line;
@@ -259,7 +264,8 @@ static void read_back(int partial, int *fmt, int *end)
 		o += sprintf(o, " rdev=%lld,%lld dev=%lld ino=%lld nlink=%u", (long long)archive_entry_rdevmajor(e), (long long)archive_entry_rdevminor(e),
 		    (long long)archive_entry_dev(e), (long long)archive_entry_ino64(e), archive_entry_nlink(e));
 		long long sz = archive_entry_size(e);
-		if (partial && sz > (1 << 20)) { o += sprintf(o, " body=skipped"); rb[nrb++] = line; st = 0; break; }
+		if (partial && sz > (1 << 20)) { o += sprintf(o, " body=skipped"); out[(*nout)++] = line; st = 0; break; }
+		unsigned char *keepbuf = NULL; size_t keeplen = 0, keepcap = 0;
 		uint64_t hsh = 14695981039346656037ULL; long long tot = 0; int dst;
 		const void *b; size_t bl; la_int64_t off; long long expect = 0;
 		while ((dst = archive_read_data_block(r, &b, &bl, &off)) == ARCHIVE_OK || dst == ARCHIVE_WARN) {
@@ -267,10 +273,17 @@ static void read_back(int partial, int *fmt, int *end)
 			for (; expect < off; expect++) { hsh ^= 0; hsh *= 1099511628211ULL; tot++; }
 			const unsigned char *ub = b;
 			for (size_t i = 0; i < bl; i++) { hsh ^= ub[i]; hsh *= 1099511628211ULL; }
+			if (keep && bl > 0 && off >= 0 && (size_t)off + bl <= (4u << 20)) {
+				if ((size_t)off + bl > keepcap) { keepcap = ((size_t)off + bl) * 2 + 64; keepbuf = realloc(keepbuf, keepcap); }
+				if ((size_t)off > keeplen) memset(keepbuf + keeplen, 0, (size_t)off - keeplen);
+				memcpy(keepbuf + off, ub, bl); if ((size_t)off + bl > keeplen) keeplen = (size_t)off + bl;
+			}
 			tot += (long long)bl; expect = off + (long long)bl;
 		}
 		o += sprintf(o, " body=%lld:%016llx:%s", tot, (unsigned long long)hsh, vh_st(dst));
-		rb[nrb++] = line;
+		if (keep && nrbe < MAXENT) { rbe[nrbe] = archive_entry_clone(e); rbbody[nrbe] = keepbuf; rbblen[nrbe] = keeplen; nrbe++; }
+		else free(keepbuf);
+		out[(*nout)++] = line;
 	}
 	*end = st;
 	archive_read_free(r);
@@ -286,14 +299,46 @@ static void op_close(int abort_)
 	else c = archive_write_close(wa);
 	archive_write_free(wa); wa = NULL;
 	int fmt, end;
-	read_back(abort_, &fmt, &end);
+	read_back(abort_, &fmt, &end, 1, rb, &nrb);
 	printf("c=%s len=%zu hash=%016llx", vh_st(c), sink_len, (unsigned long long)vh_fnv(sink, sink_len));
 	printf(" hex=");
 	if (sink_len <= 1536) vh_puthex(sink, sink_len); else printf("+");
 	printf(" fmt=%x n=%d end=%s\n", fmt, nrb, end == -99 ? "toomany" : vh_st(end));
 }
 
-static void c_begin(void) { wa = NULL; nrb = 0; sink_len = 0; sink_fail = 0; }
+/* rewrite f=<fmt> [bpb= bilb=]: feed the entries obtained from the first read, unchanged, into the
+ * writer of <fmt>, read the result again (C02: the read-back form is a fixed point) */
+static void op_rewrite(char **w, int n)
+{
+	const char *f = kv(w, n, "f"), *bpb = kv(w, n, "bpb"), *bilb = kv(w, n, "bilb");
+	struct archive *a = archive_write_new();
+	/* the first archive is no longer needed: reuse the sink */
+	sink_len = 0;
+	int r = f ? set_format(a, f) : -99;
+	if (r == -99) { printf("bad-op\n"); archive_write_free(a); return; }
+	archive_write_set_bytes_per_block(a, bpb ? atoi(bpb) : 10240);
+	if (bilb) archive_write_set_bytes_in_last_block(a, atoi(bilb));
+	int o = archive_write_open2(a, NULL, NULL, sink_write, NULL, NULL);
+	printf("o=%s h=", vh_st(o < r ? o : r));
+	for (int i = 0; i < nrbe; i++) {
+		int h = archive_write_header(a, rbe[i]);
+		printf("%s%s", i ? "," : "", vh_st(h));
+		if (h >= ARCHIVE_WARN) {
+			if (rbblen[i]) archive_write_data(a, rbbody[i], rbblen[i]);
+			archive_write_finish_entry(a);
+		}
+	}
+	if (nrbe == 0) printf("-");
+	int c = archive_write_close(a);
+	archive_write_free(a);
+	for (int i = 0; i < nrb2; i++) free(rb2[i]);
+	int fmt, end;
+	read_back(0, &fmt, &end, 0, rb2, &nrb2);
+	printf(" c=%s len=%zu hash=%016llx fmt=%x n=%d end=%s\n", vh_st(c), sink_len, (unsigned long long)vh_fnv(sink, sink_len),
+	    fmt, nrb2, end == -99 ? "toomany" : vh_st(end));
+}
+
+static void c_begin(void) { wa = NULL; nrb = 0; nrb2 = 0; nrbe = 0; sink_len = 0; sink_fail = 0; }
 
 static void c_op(char *line)
 {
@@ -306,6 +351,8 @@ static void c_op(char *line)
 	else if (!strcmp(w[0], "close")) op_close(0);
 	else if (!strcmp(w[0], "abort")) op_close(1);
 	else if (!strcmp(w[0], "done")) printf("done\n");
+	else if (!strcmp(w[0], "rewrite")) op_rewrite(w, n);
+	else if (!strcmp(w[0], "rd2") && n == 2) { int i = atoi(w[1]); if (i >= 0 && i < nrb2) printf("%s\n", rb2[i]); else printf("none\n"); }
 	else if (!strcmp(w[0], "rd") && n == 2) { int i = atoi(w[1]); if (i >= 0 && i < nrb) printf("%s\n", rb[i]); else printf("none\n"); }
 	else printf("bad-op\n");
 }
@@ -314,7 +361,9 @@ static void c_end(void)
 {
 	if (wa) { sink_fail = 1; archive_write_free(wa); wa = NULL; sink_fail = 0; }
 	for (int i = 0; i < nrb; i++) free(rb[i]);
-	nrb = 0; free(sink); sink = NULL; sink_cap = sink_len = 0;
+	for (int i = 0; i < nrb2; i++) free(rb2[i]);
+	for (int i = 0; i < nrbe; i++) { archive_entry_free(rbe[i]); free(rbbody[i]); }
+	nrb = nrb2 = nrbe = 0; free(sink); sink = NULL; sink_cap = sink_len = 0;
 }
 
 int main(int argc, char **argv)
